@@ -277,6 +277,12 @@ def run_cases(tag, imports, case_lines, chunk=400, extra_defs=""):
   def one(item):
     name, cnt = item
     ok, out = vlib.coqc(name, timeout=900)
+    if not ok and "inconsistent assumptions" in out:
+      # a shared .vo was rebuilt by a concurrent check: rebuild our imports under the lock, retry once
+      with vlib.Lock():
+        targets = [i.replace(".", "/") + ".vo" for i in imports if not i.startswith("Coq")]
+        vlib.coq_make(targets)
+        ok, out = vlib.coqc(name, timeout=900)
     if not ok:
       raise RuntimeError(f"case file {name} failed to compile:\n{out[-3000:]}")
     lst = vlib.parse_nat_list(out, "=")
